@@ -965,7 +965,7 @@ spif_dlinked_list_remove_at(spif_dlinked_list_t self, spif_listidx_t idx)
 static spif_bool_t
 spif_dlinked_list_reverse(spif_dlinked_list_t self)
 {
-    spif_dlinked_list_item_t current, tmp;
+    spif_dlinked_list_item_t current, tmp = (spif_dlinked_list_item_t) NULL;
 
     ASSERT_RVAL(!SPIF_LIST_ISNULL(self), FALSE);
     for (current = self->head; current; ) {
